@@ -11,6 +11,11 @@ CHECKS = {
          "Every room-definition history up to the depth bound (3 templates x creator events, applied through the real room-mutation path and propagated by the real export/import) x every caller identity x 33 operation shapes is executed on real GraphDatabaseService instances; each verdict is compared with the rights oracle, refused operations are checked to leave the database file unchanged (SQLite data_version) and authorisation rows to change only through room mutations.",
          "Trusts the rights oracle (150 lines, written from the documentation), the clock hook, and that fixture rows planted unchecked with real signatures are indistinguishable from rows that arrived earlier. Bounded: 4 identities, 3 rooms, depth 2 (quick) / 3 (thorough).",
          "DESIGN.md section 5 C01"),
+ "C10": ("model_checking",
+         "explicit-state enumeration of room histories x all construction paths on the real service, differential against the rights oracle",
+         "Every room history up to the depth bound is built with real room mutations and observed through nine construction paths on real instances: the live room (RoomModified event), incremental import, fresh import of the whole history, import over an earlier version, re-import, storage reload (the real LOAD_ROOMS query + load_json) on each of them, and a real restart of every instance; each path's decision matrix (admin, member, user admin, own/all right per entity at every event date +-1 ms) must equal the oracle's, and every construction step must succeed.",
+         "Trusts the rights oracle; reload is composed by the harness from the real query path and load_json exactly as start-up does and validated by a real restart per chunk of 16 histories. Bounded: one varying key, one varying entity, 3 templates, depth 2-3 (quick) / 3-4 (thorough).",
+         "DESIGN.md section 5 C10"),
 }
 
 NOT_YET = {
